@@ -555,6 +555,121 @@ Definition in_range_repo (comp : pose -> pose -> pose) : dataset -> bool :=
   in_range comp Tcolmap.camera_model_ids Tcolmap.unknown_camera Tcolmap.unknown_camera_exported_as
            Tcolmap.default_focal_length_factor Tcolmap.max_image_id false.
 
+(* ------------------------------------------------------------------ the lexing of images.txt, character level
+   (import_colmap_reconstruction.py: split_colmap_image_line, colmap_images_line_pattern).  The first line of an image is
+       IMAGE_ID QW QX QY QZ TX TY TZ CAMERA_ID NAME
+   written by export_to_colmap_images_txt as ' '.join('{}'.format(f) ...).  The importer strips the blanks at the end
+   of the line (str.rstrip), then reads 9 fields separated by runs of blanks and / or commas (regex [^,\s]+ / [,\s]+),
+   and NAME is THE REST OF THE LINE, as written (leading separators skipped): an image name may contain blanks, several
+   in a row, tabs, commas.  REPAIR (E) (fixes/C13-import-image-names-verbatim.patch): before it, the whole line was
+   cut into fields and NAME re-assembled as ' '.join(fields[9:]) -- "a  x.jpg" came back as "a x.jpg"
+   ([parse_image_line_legacy]).  Strings are UTF-8 bytes; the blanks are the ASCII ones of Python's \s / str.isspace
+   (9-13, 28-32); the non-ASCII blanks (U+0085, U+00A0, U+2000.. ) are outside the model (never generated).
+   None = fewer than 9 fields (the code then raises IndexError / ValueError at int(fields[..])). *)
+Definition is_ws (c : ascii) : bool :=
+  let n := N_of_ascii c in ((9 <=? n)%N && (n <=? 13)%N) || ((28 <=? n)%N && (n <=? 32)%N).
+Definition is_sep (c : ascii) : bool := is_ws c || (N_of_ascii c =? 44)%N.
+Fixpoint skip_seps (s : string) : string :=
+  match s with String c s' => if is_sep c then skip_seps s' else s | EmptyString => s end.
+(* the longest prefix free of separators, and what follows *)
+Fixpoint take_tok (s : string) : string * string :=
+  match s with
+  | String c s' => if is_sep c then (EmptyString, s) else let tr := take_tok s' in (String c (fst tr), snd tr)
+  | EmptyString => (EmptyString, EmptyString)
+  end.
+Fixpoint rstrip (s : string) : string :=
+  match s with
+  | EmptyString => EmptyString
+  | String c s' => match rstrip s' with
+                   | EmptyString => if is_ws c then EmptyString else String c EmptyString
+                   | r => String c r
+                   end
+  end.
+(* n fields, then the rest with its leading separators skipped *)
+Fixpoint fields_n (n : nat) (s : string) : option (list string * string) :=
+  match n with
+  | O => Some ([], s)
+  | S n' => let tr := take_tok s in
+            match fst tr with
+            | EmptyString => None
+            | t => match fields_n n' (skip_seps (snd tr)) with
+                   | Some (l, rest) => Some (t :: l, rest)
+                   | None => None
+                   end
+            end
+  end.
+Definition parse_image_line (line : string) : option (list string * string) :=
+  fields_n 9 (skip_seps (rstrip line)).
+(* re.findall('[^,\s]+', s); fuel = length s + 1 *)
+Fixpoint all_fields (fuel : nat) (s : string) : list string :=
+  match fuel with
+  | O => []
+  | S f => let tr := take_tok (skip_seps s) in
+           match fst tr with EmptyString => [] | t => t :: all_fields f (snd tr) end
+  end.
+Fixpoint join_sp (l : list string) : string :=
+  match l with [] => EmptyString | [x] => x | x :: l' => (x ++ String " "%char (join_sp l'))%string end.
+Definition squeeze (name : string) : string := join_sp (all_fields (S (String.length name)) name).
+Definition parse_image_line_legacy (line : string) : option (list string * string) :=
+  match parse_image_line line with Some (l, name) => Some (l, squeeze name) | None => None end.
+(* export_to_colmap_images_txt: ' '.join(fields) *)
+Definition emit_image_line (fields : list string) (name : string) : string := join_sp (fields ++ [name]).
+(* the file: comment lines (starting with #) are dropped, then the lines go by two -- the first of an image, then its
+   2-D points (possibly an empty line); import_from_colmap_images_txt keeps `i % 2 == 0` for images / poses *)
+Definition is_comment (line : string) : bool := match line with String c _ => (N_of_ascii c =? 35)%N | EmptyString => false end.
+Fixpoint evens {A} (l : list A) : list A :=
+  match l with [] => [] | x :: l' => x :: match l' with [] => [] | _ :: l'' => evens l'' end end.
+Fixpoint all_some {A} (l : list (option A)) : option (list A) :=
+  match l with
+  | [] => Some []
+  | Some a :: l' => match all_some l' with Some r => Some (a :: r) | None => None end
+  | None :: _ => None
+  end.
+Definition parse_images_txt (lines : list string) : option (list (list string * string)) :=
+  all_some (map parse_image_line (evens (List.filter (fun l => negb (is_comment l)) lines))).
+(* export_to_colmap_images_txt: header, then two lines per image *)
+Definition emit_images_txt (header : list string) (recs : list (list string * string * string)) : list string :=
+  header ++ flat_map (fun r => [emit_image_line (fst (fst r)) (snd (fst r)); snd r]) recs.
+
+(* a field as '{}'.format writes one: not empty, no blank, no comma *)
+Fixpoint clean_tok (s : string) : bool :=
+  match s with EmptyString => true | String c s' => negb (is_sep c) && clean_tok s' end.
+Definition field_ok (s : string) : bool := match s with EmptyString => false | _ => clean_tok s end.
+(* an image name as kapture's csv files can hold one: it does not begin with a blank or a comma and does not end
+   with a blank (records_camera.txt is split on \s*,\s* and stripped) *)
+Definition name_ok (s : string) : bool :=
+  match s with EmptyString => false | String c _ => negb (is_sep c) end && eqb (rstrip s) s.
+
+(* images.txt as TEXT for the records of [export_timages] (tokens = strings): export_to_colmap_images_txt writes
+   ' '.join('{}'.format(f)) of [id] + r_raw + t_raw + [camera id, name], then the 2-D points X Y POINT3D_ID *)
+Section ImagesTxt.
+  Variable show : Q -> string.                    (* '{}'.format(float) *)
+  Variable show_z : Z -> string.                  (* '{}'.format(int) *)
+  Definition fields_of_timage (ti : timage string) : list string :=
+    let '(a, b, c, e) := ti_q string ti in let '(x, y, z) := ti_t string ti in
+    [show_z (ti_id string ti); a; b; c; e; x; y; z; show_z (ti_cam string ti)].
+  Definition p2d_line (ti : timage string) : string :=
+    join_sp (flat_map (fun xy => [fst xy; snd xy; show_z (-1)%Z]) (ti_p2d string ti)).   (* POINT3D_ID is never read back *)
+  Definition images_txt_of (header : list string) (is : list (timage string)) : list string :=
+    emit_images_txt header (map (fun ti => (fields_of_timage ti, ti_name string ti, p2d_line ti)) is).
+End ImagesTxt.
+
+(* the import before repair (E) at the level of datasets: every name read from images.txt is squeezed *)
+Definition squeeze_names {tok} (tx : ctxt tok) : ctxt tok :=
+  mkTX tok (tx_cameras tok tx)
+       (match tx_images tok tx with
+        | Some is => Some (map (fun ti => mkTI tok (ti_id tok ti) (ti_q tok ti) (ti_t tok ti) (ti_cam tok ti)
+                                               (squeeze (ti_name tok ti)) (ti_p2d tok ti)) is)
+        | None => None
+        end) (tx_points tok tx).
+Definition roundtrip_squeezed (d : dataset) : option dataset :=
+  match export MPose.compose2 Q (fun x => x) Tcolmap.camera_model_ids Tcolmap.camera_model_names Tcolmap.unknown_camera
+               Tcolmap.unknown_camera_exported_as Tcolmap.default_focal_length_factor Tcolmap.max_image_id false d with
+  | Some c => Some (import_data Q (fun x => x) cam_name_x Tcolmap.camera_model_names Tcolmap.max_image_id false
+                                (fst c, squeeze_names (snd c)))
+  | None => None
+  end.
+
 (* ------------------------------------------------------------------ correspondence
    One case = the dataset export_colmap loaded (kapture_from_dir), what export_colmap + import_colmap did on it,
    observed BY IMAGE NAME on the re-imported dataset, and a batch of (a, b) fed to the real
@@ -571,7 +686,10 @@ Record observed := mkO {
 (* one export + import of one dataset with one set of import options; a case is a HISTORY of such steps run one
    after the other in one python process (a single step for the plain round trips) *)
 Record step := mkStep { s_data : dataset; s_opts : iopts; s_obs : observed }.
-Record case := mkCase { c_steps : list step; c_pairs : list (Z * Z * Z * Z * Z) }.
+(* c_lines: images.txt files (their lines) given to the real import_from_colmap_images_txt, with the ten fields it read
+   for every image (numbers re-printed canonically by the harness; None = it raised) *)
+Record case := mkCase { c_steps : list step; c_pairs : list (Z * Z * Z * Z * Z);
+                        c_lines : list (list string * option (list (list string * string))) }.
 
 Definition Qs_eqb (a b : list Q) : bool :=
   (fix go a b := match a, b with [] , [] => true | x :: a', y :: b' => Qeq_bool x y && go a' b' | _, _ => false end) a b.
@@ -637,4 +755,7 @@ Definition check_step (c : step) : bool :=
   end.
 
 (* every step is compared with the model evaluated on that step alone *)
-Definition check_case (c : case) : bool := check_pairs (c_pairs c) && forallb check_step (c_steps c).
+Definition check_lines (ls : list (list string * option (list (list string * string)))) : bool :=
+  forallb (fun lo => eqb (parse_images_txt (fst lo)) (snd lo)) ls.
+Definition check_case (c : case) : bool :=
+  check_pairs (c_pairs c) && check_lines (c_lines c) && forallb check_step (c_steps c).
